@@ -238,13 +238,27 @@ func (r *reconcile) updateFlowControls(condition *proxyv1alpha1.RateLimitConditi
 	}
 }
 
+// remoteLimiter returns the remote wrapper of a flow control once the limiter server
+// has given it a limiter. A wrapper that was only enabled (its first answer is still
+// to come, or was ignored) has none: its type and limits cannot be asked for.
+func remoteLimiter(flowControlCache FlowControlCache) RemoteFlowControlWrapper {
+	rmfc := flowControlCache.FlowControl()
+	if rmfc == nil {
+		return nil
+	}
+	if p, ok := rmfc.(flowcontrol.Pinner); ok && p.Pin() == nil {
+		return nil
+	}
+	return rmfc
+}
+
 func getRateLimitItemConfiguration(name string, flowControlCache FlowControlCache) proxyv1alpha1.RateLimitItemConfiguration {
 	itemConfig := proxyv1alpha1.RateLimitItemConfiguration{
 		Name:     name,
 		Strategy: flowControlCache.Strategy(),
 	}
 
-	rmfc := flowControlCache.FlowControl()
+	rmfc := remoteLimiter(flowControlCache)
 
 	if rmfc == nil {
 		itemConfig.LimitItemDetail = proxyv1alpha1.LimitItemDetail{}
@@ -265,7 +279,8 @@ func getRateLimitItemStatus(name string, flowControlCache FlowControlCache) prox
 	}
 
 	flowControlSchemaType := flowControlCache.LocalFlowControl().Type()
-	if rmfc := flowControlCache.FlowControl(); rmfc != nil {
+	rmfc := remoteLimiter(flowControlCache)
+	if rmfc != nil {
 		flowControlSchemaType = rmfc.Type()
 	}
 
@@ -275,8 +290,8 @@ func getRateLimitItemStatus(name string, flowControlCache FlowControlCache) prox
 		status.LimitItemDetail.MaxRequestsInflight = &proxyv1alpha1.MaxRequestsInflightFlowControlSchema{
 			Max: int32(math.Round(inflight)),
 		}
-		if remoteFlowControl := flowControlCache.FlowControl(); remoteFlowControl != nil {
-			status.RequestLevel = int32(float64(inflight) / float64(flowControlCache.FlowControl().Config().MaxRequestsInflight.Max) * 100)
+		if rmfc != nil {
+			status.RequestLevel = int32(float64(inflight) / float64(rmfc.Config().MaxRequestsInflight.Max) * 100)
 		}
 	case proxyv1alpha1.TokenBucket:
 		rate := flowControlCache.Rate()
@@ -285,8 +300,8 @@ func getRateLimitItemStatus(name string, flowControlCache FlowControlCache) prox
 			Burst: int32(math.Round(rate)),
 		}
 		// TODO
-		if remoteFlowControl := flowControlCache.FlowControl(); remoteFlowControl != nil {
-			status.RequestLevel = int32(100 * rate / float64(flowControlCache.FlowControl().Config().TokenBucket.QPS))
+		if rmfc != nil {
+			status.RequestLevel = int32(100 * rate / float64(rmfc.Config().TokenBucket.QPS))
 		}
 	}
 
